@@ -1,0 +1,60 @@
+//go:build verif
+
+// Contracts for gzv (contract-based deductive verification, /verif). Comment-only file.
+package redis
+
+// ---------------------------------------------------------------------------------------------
+// C19 Redis lock. The two scripts are verified against an abstract Redis key (has, str, ttl):
+//   holder(key) = str(1) while has(1); the lock script grants iff the key is free or held by the caller and then
+//   (re)writes the caller's id with the requested lease; otherwise nothing changes. The release script deletes iff the
+//   caller is the holder. "At most one holder" is the single-valuedness of the key; it is preserved by every script run,
+//   hence (atomic-script rule) under every interleaving of instances.
+// ---------------------------------------------------------------------------------------------
+
+//@ lua lockscript.lua
+//@   property C19
+//@   keys 1
+//@   args 2
+//@   requires argn(2) > 0
+//@   ensures iff(!rnil() && rstr() == "OK", !old(has(1)) || old(str(1)) == args(1))
+//@   ensures implies(!old(has(1)) || old(str(1)) == args(1), has(1) && str(1) == args(1) && ttl(1) == argn(2))
+//@   ensures implies(old(has(1)) && old(str(1)) != args(1), rnil() && has(1) && str(1) == old(str(1)) && ttl(1) == old(ttl(1)))
+
+//@ lua delscript.lua
+//@   property C19
+//@   keys 1
+//@   args 1
+//@   ensures iff(rnum() == 1, old(has(1)) && old(str(1)) == args(1))
+//@   ensures implies(old(has(1)) && old(str(1)) == args(1), !has(1))
+//@   ensures implies(!(old(has(1)) && old(str(1)) == args(1)), rnum() == 0 && has(1) == old(has(1)) && str(1) == old(str(1)) && ttl(1) == old(ttl(1)))
+
+// The Go side: which script runs with which arguments, and how replies map to results.
+//@ ghost var scriptResp any
+//@ ghost var scriptErr error
+
+//@ func (s *Redis) ScriptRunCtx
+//@   trusted
+//@   results resp, err
+//@   ensures resp == scriptResp && err == scriptErr
+//@   modifies scriptResp, scriptErr
+
+//@ func (rl *RedisLock) AcquireCtx
+//@   property C19
+//@   results ok, err
+//@   call ScriptRunCtx#0: assert arg_script == lockScript && len(arg_keys) == 1 && arg_keys[0] == rl.key
+//@   call ScriptRunCtx#0: assert len(raw3) == 2 && raw3[0] == rl.id && raw3[1] == strconv.Itoa(int(rl.seconds)*1000+500)
+//@   ensures implies(ok, err == nil && scriptErr == nil && scriptResp != nil)
+//@   ensures implies(scriptErr != nil && !errors.Is(scriptErr, red.Nil), !ok && err == scriptErr)
+//@   ensures implies(scriptErr == nil || errors.Is(scriptErr, red.Nil), err == nil)
+//@   ensures implies(scriptErr != nil || scriptResp == nil, !ok)
+//@   modifies scriptResp, scriptErr
+
+//@ func (rl *RedisLock) ReleaseCtx
+//@   property C19
+//@   results ok, err
+//@   call ScriptRunCtx#0: assert arg_script == delScript && len(arg_keys) == 1 && arg_keys[0] == rl.key
+//@   call ScriptRunCtx#0: assert len(raw3) == 1 && raw3[0] == rl.id
+//@   ensures implies(scriptErr != nil, !ok && err == scriptErr)
+//@   ensures implies(scriptErr == nil, err == nil)
+//@   ensures implies(ok, scriptErr == nil && int64(scriptResp.(int64)) == 1)
+//@   modifies scriptResp, scriptErr
